@@ -238,6 +238,11 @@ impl Lexer {
                     self.after_where = true;
                     Some(Lexem::Order)
                 }
+                "group" if !self.before_from => {
+                    // no search root can follow: a comma between grouping keys does not start one
+                    self.after_where = true;
+                    Some(Lexem::RawString(s))
+                }
                 "by" => Some(Lexem::By),
                 "asc" => self.next_lexem(),
                 "desc" => Some(Lexem::DescendingOrder),
